@@ -40,6 +40,8 @@ CT_VARTIME = [
     ('uint.sqrt', 'uint.sqrt_vartime'), ('boxed.sqrt', 'boxed.sqrt_vartime'),
     ('uint.checked_sqrt', 'uint.checked_sqrt_vartime'), ('boxed.checked_sqrt', 'boxed.checked_sqrt_vartime'),
     ('uint.widening_square', 'uint.widening_mul@self'), ('boxed.square', 'boxed.mul@self'),
+    # Montgomery-based mul_mod vs the wide-remainder route (rem_wide_vartime) and the MulMod trait
+    ('uint.mul_mod', 'uint.mul_mod_vartime'), ('uint.mul_mod', 'uint.mul_mod_trait'), ('uint.mul_mod_vartime', 'uint.mul_mod_trait'),
 ]
 
 _cache = {}
@@ -49,7 +51,7 @@ def _all_cases(tier, rng):
     if key in _cache:
         return _cache[key]
     cs = []
-    frac = 0.12 if tier == 'quick' else 0.5
+    frac = 0.3 if tier == 'quick' else 0.7
     for m in _mods():
         sub = m.gen('quick', random.Random(rng.getrandbits(32)))
         # inputs of an open known finding are reported by the owning property's check, not here
